@@ -1,4 +1,5 @@
 import FV.Proofs.Force
+import FV.Proofs.ForceRet
 /-
   C13 — Force-directed relocation: fixed modules stay, centres stay in the die.
 
@@ -11,10 +12,10 @@ import FV.Proofs.Force
   Exceptions.  The model raises where the Python raises: `ZeroDivisionError` for a netlist without modules
   (`/ num_modules`) and when `k == 0` (e.g. `kappa = 0`) as soon as an attraction term is evaluated (`/ k`); a
   failing `assert` for a missing centre in the cost.  Every theorem below is conditional on the call returning
-  (`= .ok out`); `layout_returns` / `layout_kappa_zero_raises` say when the layout does.  ALL `forceAlgorithm`
-  theorems are likewise conditional on `.ok`: no `force_returns` lemma is proved (it would need every one of the 12
-  layouts and costs to be computable — non-empty netlist, `k ≠ 0`, pins in range, non-empty nets; the model's
-  `.assertion` for an out-of-range pin cannot occur in Python, where nets hold module objects).
+  (`= .ok out`); `layout_returns` / `layout_kappa_zero_raises` say when the layout does, `cost_returns` that the cost
+  of ANY layout is computable, and `force_returns` that `force_algorithm` returns for every well-formed input (≥ 1
+  module, `(W·H/n) ** (1/2) ≠ 0`, nets with ≥ 1 pin whose pins are modules — the model's `.assertion` for an
+  out-of-range pin cannot occur in Python, where nets hold module objects — and `cost < inf`, see below).
 
   Boundary of "every centre inside the die": the code clamps a MOVABLE module in every iteration, so after ≥ 1
   iteration it is inside whatever its start — outside the die, negative, missing (`movable_centre_inside`).  It never
@@ -32,10 +33,18 @@ import FV.Proofs.Force
   * nothing but centres changed — `only_centres`, `force_only_centres`: TRUE BY CONSTRUCTION of the model (the payload
     `rest` is never touched); the assurance for the Python is the harness' deep snapshot (all rectangles incl. default
     squares, areas, nets, flags) under several object histories with aliased centre Points;
-  * DETERMINISTIC — no theorem: the model is a pure function (no hidden state), so the clause is "the model is a pure
-    function + correspondence": the harness checks that two runs are bit-identical and that the layout returned by
-    `force_algorithm` is bit-identical to the layout scored for the selected constant (this is where `copy.deepcopy`
-    and Python object aliasing — part of the trusted base — are exercised);
+  * DETERMINISTIC — `deterministic` (the model is a function: no hidden state, draw or clock) and, with content,
+    `layout_reads_only_core` / `force_reads_only_core` / `force_payload_irrelevant`: the centres returned are a function of
+    the die size, the nets and per module (centre, area, fixed flag) ONLY — names, rectangles, hash values, … cannot
+    matter.  What ties this to the Python is the harness: two runs bit-identical, 5 interpreter processes with different
+    PYTHONHASHSEED bit-identical, the layout returned by `force_algorithm` bit-identical to the layout scored for the
+    selected constant (`copy.deepcopy` and object aliasing — trusted base — are exercised there);
+  * `visualize` (centres written back before the loop and after every iteration instead of once at the end) —
+    `visualize_same_layout`, `visualize_frames`, `force_visualize_same`: same die, `max_iter + 1` frames;
+  * `max_iter = 0` / fixed modules outside the die (NOT clamped by the code) — `zero_iterations_unmoved`,
+    `zero_iterations_no_centre`, `fixed_unmoved`, with kernel-checked witnesses that stay outside the die;
+  * `total_intersection_area` — `tia_each_pair_once` (every unordered pair of distinct positions, once per order),
+    `tia_twice_pairs` (symmetric overlap), `tia_nonneg`, `tia_perm` (module order irrelevant);
   * smallest cost among the constants tried — `best_kappa`, `best_kappa_minimal` (first strict minimum).
 -/
 namespace FV.C13
@@ -285,6 +294,189 @@ theorem force_centres_inside_die (o : Ops α) (disc : Pt α → α → Pt α →
   obtain ⟨_, _, _, b, _, _, _, _, _, ho⟩ := best_kappa o disc inst maxIter out hlt h
   exact centres_inside_die o inst b.1 maxIter out ho v m hm hW hH hin
 
+/-! ### `force_algorithm` returns (`force_returns`) -/
+
+/-- after ANY layout the cost is computable: every module has a centre (the write-back gives one to all of them),
+    so neither `assert` of `total_intersection_area` / `wire_length` can fail; nets are well formed (`NetsOK`: at least
+    one pin, pins are modules of the netlist — in Python a net holds ≥ 2 module objects). -/
+theorem cost_returns (o : Ops α) (disc : Pt α → α → Pt α → α → α) (inst : Inst α β) (kappa : α) (maxIter : Nat)
+    (out : Inst α β) (h : frLayout o inst kappa maxIter = .ok out) (hnets : NetsOK inst) :
+    ∃ c, cost o disc out = .ok c := by
+  obtain ⟨pos, _, rfl⟩ := frLayout_ok o inst kappa maxIter out h
+  exact cost_ok o disc _ (writeCentres_allCentres _ _) (writeCentres_netsOK _ _ hnets)
+
+/-- `force_returns`: `force_algorithm` returns for EVERY well-formed input — a netlist with at least one module,
+    well-formed nets, and a die whose `(W·H/n) ** (1/2)` is not zero (any positive die with the real `**`); centres may
+    be missing, outside the die, coincident; any iteration count.  All twelve layouts and costs are computable, a spring
+    constant is selected (the table is not empty and every cost is below `inf`), and the final layout returns. -/
+theorem force_returns (o : Ops α) (disc : Pt α → α → Pt α → α → α) (inst : Inst α β) (maxIter : Nat)
+    (hlt : ∀ x, o.ltInf x = true) (hn : inst.mods ≠ [])
+    (hp : o.powHalf (inst.W * inst.H / ((inst.mods.length : Nat) : α)) ≠ 0) (hnets : NetsOK inst) :
+    ∃ out, forceAlgorithm o disc inst maxIter = .ok out :=
+  forceAlgorithm_ok o disc inst maxIter hlt hn hp hnets
+
+/-! ### `max_iter = 0`, fixed modules outside the die: what the code does (it does NOT clamp them) -/
+
+/-- with `max_iter = 0` nothing moves and nothing is clamped: every module that had a centre comes back unchanged
+    (`(c - s) + s = c`), inside the die or not. -/
+theorem zero_iterations_unmoved (o : Ops α) (inst : Inst α β) (kappa : α) (out : Inst α β)
+    (h : frLayout o inst kappa 0 = .ok out) (v : Nat) (m : Mod α β) (c : Pt α)
+    (hm : inst.mods[v]? = some m) (hc : m.center = some c) : out.mods[v]? = some m := by
+  obtain ⟨pos, hp, rfl⟩ := frLayout_ok o inst kappa 0 out h
+  obtain ⟨k, _, _, rfl⟩ := frPositions_ok o inst kappa 0 pos hp
+  rw [writeCentres_mods inst _ v m hm]
+  simp only [frLoop]
+  rw [initPos_getD inst v m c hm hc, shift_back, ← hc]
+
+/-- … and a module WITHOUT centre is put at the centre of the die (`Point() + (W, H)/2`). -/
+theorem zero_iterations_no_centre (o : Ops α) (inst : Inst α β) (kappa : α) (out : Inst α β)
+    (h : frLayout o inst kappa 0 = .ok out) (v : Nat) (m : Mod α β)
+    (hm : inst.mods[v]? = some m) (hc : m.center = none) :
+    out.mods[v]? = some { m with center := some (inst.W / 2, inst.H / 2) } := by
+  obtain ⟨pos, hp, rfl⟩ := frLayout_ok o inst kappa 0 out h
+  obtain ⟨k, _, _, rfl⟩ := frPositions_ok o inst kappa 0 pos hp
+  rw [writeCentres_mods inst _ v m hm]
+  simp only [frLoop]
+  have : (initPos inst).getD v pzero = pzero := by
+    simp only [initPos, List.getD_eq_getElem?_getD, List.getElem?_map, hm, Option.map_some, Option.getD_some, hc]
+  rw [this]
+  simp [padd, pdiv, pzero]
+
+/-! ### the `visualize` branches -/
+
+/-- what is assumed of `get_floorplan_plot`: it may change centres (it does: `calculate_center_from_rectangles`), and
+    nothing else. -/
+def PlotOK (plot : Inst α β → Inst α β) : Prop := ∀ d, SameButCentres (plot d) d
+
+/-- `visualize` does not change the result (REPAIRED code: centres written once more after the loop): for ANY plot that
+    changes nothing but centres, the die returned by the visualising run (centres written back before the loop and
+    after every iteration, area / fixed flags read from the die being overwritten and redrawn) is the die of the plain
+    run; same exceptions. -/
+theorem visualize_same_layout (o : Ops α) (plot : Inst α β → Inst α β) (hplot : PlotOK plot) (inst : Inst α β)
+    (kappa : α) (maxIter : Nat) (vis : Bool) :
+    (frLayoutVis o plot inst kappa maxIter vis).map Prod.fst = frLayout o inst kappa maxIter := by
+  rw [frLayoutVis_eq o plot hplot, frLayout_eq]
+  cases hp : frPositions o inst kappa maxIter with
+  | error e => rfl
+  | ok pos =>
+    obtain ⟨k, hk, _, _⟩ := frPositions_ok o inst kappa maxIter pos hp
+    simp only [Except.bind, hk, Except.map]
+
+/-- the frames of a visualising run: one before the loop and one per iteration (`max_iter + 1` images); the first shows
+    the input centres (missing ones at the die centre), the last shows the centres returned. -/
+theorem visualize_frames (o : Ops α) (plot : Inst α β → Inst α β) (hplot : PlotOK plot) (inst : Inst α β) (kappa : α)
+    (maxIter : Nat) (out : Inst α β) (frames : List (List (Option (Pt α))))
+    (h : frLayoutVis o plot inst kappa maxIter true = .ok (out, frames)) :
+    frames.length = maxIter + 1 ∧ frames[0]? = some (centresOf (writeCentres inst (initPos inst))) ∧
+      frames.getLast? = some (centresOf out) := by
+  rw [frLayoutVis_eq o plot hplot] at h
+  cases hp : frPositions o inst kappa maxIter with
+  | error e => rw [hp] at h; cases h
+  | ok pos =>
+    obtain ⟨k, hk, _, hpos⟩ := frPositions_ok o inst kappa maxIter pos hp
+    rw [hp] at h
+    simp only [Except.bind, hk, ↓reduceIte, Except.ok.injEq, Prod.mk.injEq] at h
+    obtain ⟨rfl, rfl⟩ := h
+    refine ⟨by simp, by simp, ?_⟩
+    cases maxIter with
+    | zero => simp [hpos, frLoop]
+    | succ n =>
+      rw [List.getLast?_cons_of_ne_nil (by simp), List.range_succ, List.map_append]
+      simp [hpos]
+
+/-- `force_algorithm(die, visualize=…)`: the scored runs do not visualise, the final one does — same die returned. -/
+theorem force_visualize_same (o : Ops α) (disc : Pt α → α → Pt α → α → α) (plot : Inst α β → Inst α β)
+    (hplot : PlotOK plot) (inst : Inst α β) (maxIter : Nat) (vis : Bool) :
+    (forceAlgorithmVis o disc plot inst maxIter vis).map Prod.fst = forceAlgorithm o disc inst maxIter := by
+  unfold forceAlgorithmVis forceAlgorithm
+  cases bestKappa o disc inst kappas maxIter with
+  | error e => rfl
+  | ok b =>
+    cases b with
+    | none => exact visualize_same_layout o plot hplot inst _ maxIter vis
+    | some x => exact visualize_same_layout o plot hplot inst _ maxIter vis
+
+/-- the code AS FOUND (no write-back after the loop when visualising) returns the plain layout AS THE LAST PLOT LEFT IT:
+    with the real plot, every module with rectangles that sits on a net comes back at the centroid of its (unmoved)
+    rectangles — not at the position of the layout that was scored (`visualize_as_found_differs` below; genuine defect
+    `C13_visualize_final_writeback`). -/
+theorem visualize_as_found (o : Ops α) (plot : Inst α β → Inst α β) (hplot : PlotOK plot) (inst : Inst α β)
+    (kappa : α) (maxIter : Nat) (out : Inst α β) (frames : List (List (Option (Pt α))))
+    (h : frLayoutVisAsFound o plot inst kappa maxIter = .ok (out, frames)) :
+    ∃ plain, frLayout o inst kappa maxIter = .ok plain ∧ out = plot plain :=
+  frLayoutVisAsFound_eq o plot hplot inst kappa maxIter out frames h
+
+/-! ### `total_intersection_area` -/
+
+/-- each pair counted once per order: when every module has a centre (always so after a layout) the double loop
+    returns the sum, over every unordered pair of distinct POSITIONS `i < j` of the module list, of
+    `disc(m_i, m_j) + disc(m_j, m_i)` — no pair is skipped, none is taken twice, a module is never paired with itself. -/
+theorem tia_each_pair_once (o : Ops α) (disc : Pt α → α → Pt α → α → α) (inst : Inst α β) (hc : AllCentres inst) :
+    totalIntersectionArea o disc inst = .ok (pairSum (pairTerm o disc) inst.mods) := by
+  rw [tia_value o disc inst hc, sq_sub_diag]
+
+/-- with a symmetric overlap function (C17 `area_symm`) this is twice the sum over unordered pairs. -/
+theorem tia_twice_pairs (o : Ops α) (disc : Pt α → α → Pt α → α → α) (inst : Inst α β) (hc : AllCentres inst)
+    (hsym : ∀ c1 r1 c2 r2, disc c1 r1 c2 r2 = disc c2 r2 c1 r1) :
+    totalIntersectionArea o disc inst = .ok (2 * pairSumOnce (pairTerm o disc) inst.mods) := by
+  rw [tia_each_pair_once o disc inst hc, pairSum_symm]
+  intro a b
+  unfold pairTerm
+  cases a.center <;> cases b.center <;> simp [hsym]
+
+/-- non-negative whenever the overlap function is (C17 `lens_bounds`) — whatever the centres. -/
+theorem tia_nonneg (o : Ops α) (disc : Pt α → α → Pt α → α → α) (inst : Inst α β)
+    (hnn : ∀ c1 r1 c2 r2, 0 ≤ disc c1 r1 c2 r2) (a : α) (h : totalIntersectionArea o disc inst = .ok a) : 0 ≤ a := by
+  unfold totalIntersectionArea at h
+  refine foldlM_inv (fun x => 0 ≤ x) _ _ ?_ _ a (by simp) h
+  intro acc i b hacc hb
+  refine foldlM_inv (fun x => 0 ≤ x) _ _ ?_ _ b hacc hb
+  intro acc j b hacc hb
+  split at hb
+  · cases hb; exact hacc
+  · split at hb
+    · split at hb
+      · cases hb; exact add_nonneg hacc (hnn _ _ _ _)
+      · cases hb
+    · cases hb
+
+/-- symmetric in the module order: listing the modules in another order gives the same total (exact arithmetic;
+    on doubles the additions are re-associated: compared to 1e-9 by the harness). -/
+theorem tia_perm (o : Ops α) (disc : Pt α → α → Pt α → α → α) (a b : Inst α β) (hp : a.mods.Perm b.mods)
+    (hc : AllCentres a) : totalIntersectionArea o disc a = totalIntersectionArea o disc b := by
+  have hcb : AllCentres b := by
+    intro v m hm
+    have hmem : m ∈ a.mods := hp.mem_iff.mpr (List.mem_of_getElem? hm)
+    obtain ⟨w, hw⟩ := List.getElem?_of_mem hmem
+    exact hc w m hw
+  rw [tia_value o disc a hc, tia_value o disc b hcb, sqSum_perm _ _ _ hp, diagSum_perm _ _ _ hp]
+
+/-! ### determinism: the result is a function of what the code reads, and of nothing else -/
+
+/-- the model is a function: one input, one result (no hidden state, no random draw, no clock). -/
+theorem deterministic (o : Ops α) (disc : Pt α → α → Pt α → α → α) (inst : Inst α β) (maxIter : Nat)
+    (out1 out2 : Inst α β) (h1 : forceAlgorithm o disc inst maxIter = .ok out1)
+    (h2 : forceAlgorithm o disc inst maxIter = .ok out2) : out1 = out2 := by
+  rw [h1] at h2; exact Except.ok.inj h2
+
+/-- … and it reads nothing but the die size, the nets and, per module, (centre, area, fixed flag): two dies that agree on
+    these — whatever their module names, rectangles, aspect ratios, hash values, … (payloads of possibly different
+    types) — get the same centres, from `fruchterman_reingold_layout` and from `force_algorithm`. -/
+theorem layout_reads_only_core {γ : Type} (o : Ops α) (a : Inst α β) (b : Inst α γ) (h : SameCore a b) (kappa : α)
+    (maxIter : Nat) : (frLayout o a kappa maxIter).map centresOf = (frLayout o b kappa maxIter).map centresOf :=
+  h.frLayout o kappa maxIter
+
+theorem force_reads_only_core {γ : Type} (o : Ops α) (disc : Pt α → α → Pt α → α → α) (a : Inst α β) (b : Inst α γ)
+    (h : SameCore a b) (maxIter : Nat) :
+    (forceAlgorithm o disc a maxIter).map centresOf = (forceAlgorithm o disc b maxIter).map centresOf :=
+  h.forceAlgorithm o disc maxIter
+
+/-- in particular relabelling everything the code does not read leaves the centres alone. -/
+theorem force_payload_irrelevant {γ : Type} (o : Ops α) (disc : Pt α → α → Pt α → α → α) (inst : Inst α β) (f : β → γ)
+    (maxIter : Nat) :
+    (forceAlgorithm o disc (mapRest f inst) maxIter).map centresOf = (forceAlgorithm o disc inst maxIter).map centresOf :=
+  ((mapRest_sameCore f inst).forceAlgorithm o disc maxIter).symm
+
 /-! ### non-vacuity: a concrete instance over `Rat` meets the hypotheses -/
 
 section Examples
@@ -338,6 +530,88 @@ example (out : Inst Rat Unit) (h : forceAlgorithm opsQ discQ instQ 2 = .ok out) 
     ∃ c, out.mods[2]? = some ⟨some c, 1, false, ()⟩ ∧ InDie (8 : Rat) 6 c :=
   force_centres_inside_die opsQ discQ instQ 2 out (fun _ => rfl) h 2 _ rfl (by decide) (by decide)
     (by intro c hc; cases hc; simp only [InDie, instQ]; norm_num)
+
+/-- `force_returns` applied: all three hypotheses hold on `instQ` (3 modules, `(8·6/3) ** (1/2) ≠ 0`, one 3-pin net). -/
+theorem instQ_netsOK : NetsOK instQ := by
+  intro e he
+  simp only [instQ, List.mem_singleton] at he
+  subst he
+  refine ⟨by simp, ?_⟩
+  intro v hv
+  simp only [List.mem_cons, List.not_mem_nil, or_false] at hv
+  rcases hv with rfl | rfl | rfl <;> simp [instQ]
+
+example : ∃ out, forceAlgorithm opsQ discQ instQ 5 = .ok out :=
+  force_returns opsQ discQ instQ 5 (fun _ => rfl) (by simp [instQ]) (by simp [opsQ, instQ]) instQ_netsOK
+
+/-- `max_iter = 0`: the movable module that starts outside the die STAYS outside — `hit : 1 ≤ maxIter` of
+    `movable_centre_inside` and `hin` of `centres_inside_die` are necessary. -/
+example (out : Inst Rat Unit) (h : frLayout opsQ instOut 1 0 = .ok out) :
+    out.mods[0]? = some ⟨some (11, 3), 4, false, ()⟩ ∧ ¬ InDie (8 : Rat) 6 (11, 3) :=
+  ⟨zero_iterations_unmoved opsQ instOut 1 out h 0 _ (11, 3) rfl rfl, by simp only [InDie]; norm_num⟩
+
+/-- a FIXED module outside the die stays outside for every iteration count (the code never clamps it). -/
+def instFixOut : Inst Rat Unit :=
+  { W := 8, H := 6, mods := [⟨some (11, 3), 4, true, ()⟩, ⟨some (2, 2), 1, false, ()⟩], nets := [⟨[0, 1], 1⟩] }
+
+example : (frLayout opsQ instFixOut 1 3).toBool = true := by decide +kernel
+example (out : Inst Rat Unit) (h : frLayout opsQ instFixOut 1 3 = .ok out) :
+    out.mods[0]? = some ⟨some (11, 3), 4, true, ()⟩ ∧ ¬ InDie (8 : Rat) 6 (11, 3) :=
+  ⟨fixed_unmoved opsQ instFixOut 1 3 out h 0 _ (11, 3) rfl rfl rfl, by simp only [InDie]; norm_num⟩
+
+/-- a plot that, like the real one, puts module 1 back at the centroid `(8, 3)` of its rectangles. -/
+def resetSecond : List (Mod Rat Unit) → List (Mod Rat Unit)
+  | a :: b :: l => a :: { b with center := some (8, 3) } :: l
+  | l => l
+def plotQ (d : Inst Rat Unit) : Inst Rat Unit := { d with mods := resetSecond d.mods }
+
+theorem plotQ_ok : PlotOK plotQ := by
+  intro d
+  refine ⟨rfl, rfl, rfl, ?_⟩
+  simp only [plotQ]
+  match d.mods with
+  | [] => rfl
+  | [_] => rfl
+  | _ :: _ :: _ => rfl
+
+/-- the visualising run returns on `instQ`, draws 3 frames for 2 iterations, the last one showing the result. -/
+example : (frLayoutVis opsQ plotQ instQ 1 2 true).toBool = true := by decide +kernel
+example (out : Inst Rat Unit) (frames : List (List (Option (Pt Rat))))
+    (h : frLayoutVis opsQ plotQ instQ 1 2 true = .ok (out, frames)) :
+    frames.length = 3 ∧ frames.getLast? = some (centresOf out) :=
+  ⟨(visualize_frames opsQ plotQ plotQ_ok instQ 1 2 out frames h).1,
+   (visualize_frames opsQ plotQ plotQ_ok instQ 1 2 out frames h).2.2⟩
+
+/-- the defect of the code as found, kernel-checked: with a plot that resets one centre, the visualising run does NOT
+    return the layout of the plain run (the repaired model does: `visualize_same_layout`). -/
+theorem visualize_as_found_differs :
+    (frLayoutVisAsFound opsQ plotQ instQ 1 2).map (fun r => centresOf r.1) ≠ (frLayout opsQ instQ 1 2).map centresOf := by
+  decide +kernel
+
+/-- `total_intersection_area` on `instQ` (every module has a centre): value, and invariance under a reordering. -/
+theorem instQ_allCentres : AllCentres instQ := by
+  intro v m hm
+  have hv : v < 3 := (List.getElem?_eq_some_iff.mp hm).1
+  match v, hv with
+  | 0, _ => cases hm; simp
+  | 1, _ => cases hm; simp
+  | 2, _ => cases hm; simp
+
+example : totalIntersectionArea opsQ discQ instQ = .ok (pairSum (pairTerm opsQ discQ) instQ.mods) :=
+  tia_each_pair_once opsQ discQ instQ instQ_allCentres
+
+example : totalIntersectionArea opsQ discQ instQ =
+    totalIntersectionArea opsQ discQ { instQ with mods := [instQ.mods[2], instQ.mods[0], instQ.mods[1]] } :=
+  tia_perm opsQ discQ instQ _ ((List.Perm.cons _ (List.Perm.swap _ _ [])).trans (List.Perm.swap _ _ _)) instQ_allCentres
+
+/-- the value really is "each unordered pair twice": radii 4, 2, 1 (sqrt = id, pi = 3 ⇒ 4/3, 2/3, 1/3), `discQ = r1·r2`. -/
+example : totalIntersectionArea opsQ discQ instQ = .ok (2 * (4 / 3 * (2 / 3) + 4 / 3 * (1 / 3) + 2 / 3 * (1 / 3))) := by
+  decide +kernel
+
+/-- module names / rectangles (the payload) do not influence the centres. -/
+example (f : Unit → String) :
+    (forceAlgorithm opsQ discQ (mapRest f instQ) 2).map centresOf = (forceAlgorithm opsQ discQ instQ 2).map centresOf :=
+  force_payload_irrelevant opsQ discQ instQ f 2
 
 end Examples
 
